@@ -413,7 +413,8 @@ fn run_batch(exe: &Path, prop: &str, scenario: &str, seed: u64, start0: u64, ste
                         b.aborts.push(Abort { run, hang: procs[i].killed_for_hang, what, stderr: tail(&stderr, 1500) });
                         let next = run + step;
                         // a handful of dead workers is evidence enough; do not keep feeding a tree that aborts or hangs
-                        if next < total && b.aborts.len() < 8 {
+                        let cap = if prop == "C01" || prop == "C19" { 8 } else { 64 };
+                        if next < total && b.aborts.len() < cap {
                             procs[i] = spawn_worker(exe, prop, scenario, seed, next, step, total, deadline_s, i, &tx);
                         } else {
                             live -= 1;
